@@ -31,6 +31,8 @@ type World struct {
 	immutable map[*ssa.Global]bool
 	Problems  []string // contract resolution problems (stale contracts etc.)
 	typesPkgs map[string]*types.Package
+	mutableFields map[string]bool // heap-key prefixes (Type.field) of module struct fields assigned outside construction
+	moduleStructs map[string]*types.Struct
 }
 
 // TypesPkg finds a (possibly external) package by import path among everything the module imports.
@@ -225,6 +227,7 @@ func NewWorld(prog *load.Program, specDir string) (*World, error) {
 		w.Events = append(w.Events, f.Events...)
 	}
 	w.findImmutableGlobals()
+	w.findMutableFields()
 	w.TypesPkg("io") // build the package index before units run concurrently
 	return w, nil
 }
@@ -529,6 +532,111 @@ func (w *World) findImmutableGlobals() {
 			}
 		}
 	}
+}
+
+// findMutableFields records which fields of module struct types are assigned outside construction.
+// A store initialises (rather than mutates) when its target is an object allocated in the same function, or when the
+// function is a constructor (Make*, New*, Construct). Fields never mutated keep their value across calls that
+// "may modify anything" (assumption: Construct runs once per object; external code cannot assign module fields
+// except exported ones, which are treated as mutable when exported and of a type used outside the module).
+func (w *World) findMutableFields() {
+	w.mutableFields = map[string]bool{}
+	isCtor := func(f *ssa.Function) bool {
+		for f.Parent() != nil {
+			f = f.Parent()
+		}
+		n := f.Name()
+		return strings.HasPrefix(n, "Make") || strings.HasPrefix(n, "New") || n == "Construct" || n == "init"
+	}
+	for _, f := range w.allFuncs {
+		ctor := isCtor(f)
+		for _, b := range f.Blocks {
+			for _, ins := range b.Instrs {
+				var addr ssa.Value
+				switch x := ins.(type) {
+				case *ssa.Store:
+					addr = x.Addr
+				case ssa.CallInstruction:
+					// atomics and mutexes write their receiver
+					c := x.Common()
+					if fn := c.StaticCallee(); fn != nil && len(c.Args) > 0 && isIntrinsicKey(FuncKey(fn)) {
+						m := fn.Name()
+						if m != "Load" && m != "RLock" && m != "RUnlock" {
+							addr = c.Args[0]
+						}
+					}
+				}
+				if addr == nil {
+					continue
+				}
+				var path []string
+				v := addr
+				for {
+					fa, ok := v.(*ssa.FieldAddr)
+					if !ok {
+						break
+					}
+					st := types.Unalias(fa.X.Type().Underlying().(*types.Pointer).Elem()).Underlying().(*types.Struct)
+					path = append([]string{st.Field(fa.Field).Name()}, path...)
+					v = fa.X
+				}
+				if len(path) == 0 {
+					continue
+				}
+				if _, fresh := v.(*ssa.Alloc); fresh || ctor {
+					continue
+				}
+				pt, ok := types.Unalias(v.Type()).Underlying().(*types.Pointer)
+				if !ok {
+					continue
+				}
+				key := objKeyPrefix(pt.Elem())
+				for _, p := range path {
+					key += "." + p
+					w.mutableFields[key] = true
+				}
+			}
+		}
+	}
+}
+
+// fieldImmutable reports whether a heap key designates a module struct field that is never assigned after construction.
+func (w *World) fieldImmutable(key string) bool {
+	if strings.HasPrefix(key, "mem<") || strings.HasPrefix(key, "cell<") || strings.HasPrefix(key, "ghost:") || strings.HasPrefix(key, "map<") || strings.HasPrefix(key, "closure<") {
+		return false
+	}
+	if !w.Prog.InModule(keyPkg(key)) {
+		return false
+	}
+	// key is Type.f1.f2...leaf ; every prefix beyond the type must be immutable
+	tk := key
+	// find the type part: the longest prefix that is not followed by a registered mutable field
+	for m := range w.mutableFields {
+		if key == m || strings.HasPrefix(key, m+".") {
+			return false
+		}
+	}
+	if strings.HasSuffix(key, ".$held") {
+		return false
+	}
+	_ = tk
+	return true
+}
+
+// keyPkg extracts the package path of the struct type a heap key starts with.
+func keyPkg(key string) string {
+	// keys look like path/pkg.Type[.field...] possibly with type arguments
+	i := strings.Index(key, "[")
+	head := key
+	if i >= 0 {
+		head = key[:i]
+	}
+	slash := strings.LastIndex(head, "/")
+	dot := strings.Index(head[slash+1:], ".")
+	if dot < 0 {
+		return ""
+	}
+	return head[:slash+1+dot]
 }
 
 func rootGlobal(v ssa.Value) *ssa.Global {
